@@ -184,6 +184,9 @@ FAILING_CORES = [
     "if (OsN & 1) { RdV = RsV; }",
     "G0_NEW = RsV;",
     "RdV = VsV;",
+    "clz32(7 / 2);",
+    "RdV = clz32(7 / 2);",
+    "RdV = 7 / 2;",
     "RdV = RsV; __NOP",
     "__NOP",
     "RdV = extract32(RsV, 0, 8, 1);",
@@ -224,6 +227,10 @@ DEEP_TREES = [
 ]
 
 HANDWRITTEN = DEEP_TREES + [
+    # predicate operands read / written through their operand letters, jumps to the next packet, explicit registers after .new reads
+    "{ RdV = PdV; }", "{ RdV = PeV & 1; }", "{ PuV = RsV; }", "{ PvV = 0xff; }", "{ RdV = PxV; }", "{ PxV = PxV & PuV; }",
+    "{ JUMP(get_npc(pkt)); }", "{ JUMP(get_npc(pkt) & ~3); }", "{ if (PuV & 1) { JUMP(get_npc(pkt)); } }", "{ JUMP((uint32_t) get_npc(pkt)); }",
+    "{ if ((PvN & 1)) { P0 = 0xff; } }", "{ RdV = NsN; R3 = RsV; }", "{ RdV = P0_NEW; P1 = 0; }", "{ if (PuN & 1) { RdV = R2; } }",
     # a predicate written and read as .new in one part
     "{ P0 = 0xff; RdV = P0_NEW; }", "{ P1 = RsV; if ((P1_NEW & 1)) { JUMP(riV); } }", "{ P0 = 0xff; if (P0_NEW & 1) { RdV = RsV; } }",
     "{ RdV = P0_NEW; P0 = 0xff; }", "{ P2 = RsV; RdV = P3_NEW; }",
